@@ -1177,6 +1177,27 @@ void oracle_c17(Plan const& p, RunOut const& out, ChkptView const& v, Report& re
                     return;
                 }
                 if (x == 0) rep.probes["canonical-zero"]++;
+
+                if (p.integ == VEGAS && rv.pbins != 0)
+                {
+                    // the bin index is below the bin count and the bin contains the point
+                    u64 const b = c.bins[r.off_bin + j];
+                    bool inside = b < rv.pbins;
+                    if (inside)
+                    {
+                        ld const left = rv.pdf[j * (rv.pbins + 1) + b];
+                        ld const right = rv.pdf[j * (rv.pbins + 1) + b + 1];
+                        inside = (x >= left && x <= right);
+                    }
+                    if (!inside)
+                    {
+                        rep.fail("C17", "vegas-bin", key, fmt(
+                            "iteration %llu call %llu dimension %llu: bin %llu of %llu does not contain x=%.21Lg",
+                            (unsigned long long) k, (unsigned long long) r.idx, (unsigned long long) j,
+                            (unsigned long long) b, (unsigned long long) rv.pbins, x));
+                        return;
+                    }
+                }
             }
 
             if (p.integ == MULTI)
